@@ -140,7 +140,9 @@ func coqCfg(h *history) string {
 func sampleID(kind int, payload []byte) int64 {
 	switch kind {
 	case kH264:
-		return avccID(payload)
+		return avccID(payload, 1)
+	case kH264R:
+		return avccID(payload, 1+h264SliceHdrLen)
 	case kH265:
 		return h265SampleID(payload)
 	case kVP9:
@@ -156,7 +158,7 @@ func sampleID(kind int, payload []byte) int64 {
 	return decID(payload)
 }
 
-func avccID(payload []byte) int64 {
+func avccID(payload []byte, off int) int64 {
 	pos := 0
 	for pos+4 <= len(payload) {
 		n := int(payload[pos])<<24 | int(payload[pos+1])<<16 | int(payload[pos+2])<<8 | int(payload[pos+3])
@@ -166,7 +168,10 @@ func avccID(payload []byte) int64 {
 		}
 		nalu := payload[pos : pos+n]
 		if typ := nalu[0] & 0x1F; typ == 5 || typ == 1 {
-			return decID(nalu[1:])
+			if len(nalu) < off {
+				return -1
+			}
+			return decID(nalu[off:])
 		}
 		pos += n
 	}
@@ -176,10 +181,14 @@ func avccID(payload []byte) int64 {
 // id of a delivered callback (video: the slice / frame; audio: the first element)
 func callbackID(kind int, data [][]byte) int64 {
 	switch kind {
-	case kH264:
+	case kH264, kH264R:
+		off := 1
+		if kind == kH264R {
+			off = 1 + h264SliceHdrLen
+		}
 		for _, n := range data {
-			if len(n) > 0 && (n[0]&0x1f == 5 || n[0]&0x1f == 1) {
-				return decID(n[1:])
+			if len(n) >= off && (n[0]&0x1f == 5 || n[0]&0x1f == 1) {
+				return decID(n[off:])
 			}
 		}
 		return -1
@@ -304,7 +313,7 @@ func (s *swReader) Read(p []byte) (int, error) { return s.r.Read(p) }
 
 // the callbacks of mediacommon's mpegts.Reader over the downloaded segments, the source switched per
 // segment as the Client does (the demultiplexer is an oracle: which PES is complete when is its business)
-func tsParse(bodies []body) (kinds []int, out []tsEmitted, err error) {
+func tsParse(h *history, bodies []body) (kinds []int, out []tsEmitted, err error) {
 	sw := &swReader{r: bytes.NewReader(bodies[0].data)}
 	rd := &mpegts.Reader{R: sw}
 	if err := rd.Initialize(); err != nil {
@@ -320,7 +329,7 @@ func tsParse(bodies []body) (kinds []int, out []tsEmitted, err error) {
 			sup++
 			kinds = append(kinds, kH264)
 			rd.OnDataH264(tr, func(pts int64, dts int64, au [][]byte) error {
-				out = append(out, tsEmitted{track: idx, rawPTS: pts, rawDTS: dts, id: callbackID(kH264, au), seg: cur})
+				out = append(out, tsEmitted{track: idx, rawPTS: pts, rawDTS: dts, id: callbackID(idKindOf(h, kH264), au), seg: cur})
 				return nil
 			})
 		case *mpegts.CodecMPEG4Audio:
@@ -352,13 +361,13 @@ func tsParse(bodies []body) (kinds []int, out []tsEmitted, err error) {
 	return kinds, out, nil
 }
 
-func coqObs(cr *clientRun) (string, string) {
+func coqObs(h *history, cr *clientRun) (string, string) {
 	var ts, os_ []string
 	for _, t := range cr.Tracks {
 		ts = append(ts, fmt.Sprintf("(%s, %s)", zlit(t.ClockRate), coqfmt.Bool(isVideoKind(t.Kind))))
 		var us []string
 		for _, u := range t.Units {
-			us = append(us, fmt.Sprintf("Build_obsUnit %s %s %s %s", zlit(u.PTS), optZ(u.HasDTS, u.DTS), optZ(u.HasAbs, u.Abs), zlit(callbackID(t.Kind, u.Data))))
+			us = append(us, fmt.Sprintf("Build_obsUnit %s %s %s %s", zlit(u.PTS), optZ(u.HasDTS, u.DTS), optZ(u.HasAbs, u.Abs), zlit(callbackID(idKindOf(h, t.Kind), u.Data))))
 		}
 		os_ = append(os_, coqfmt.List(us))
 	}
@@ -395,8 +404,18 @@ func emitClientCase(w *shardWriter, res *pairResult, cr *clientRun) {
 		w.skipped["client:index-unreadable"]++
 		return
 	}
+	// a client that runs wild (e.g. re-downloads the same segments in a loop) is the oracle's business; a case
+	// file of that size only stalls the evaluation (normal clients: < 200 requests, < 1000 callbacks)
+	nUnits := 0
+	for _, t := range cr.Tracks {
+		nUnits += len(t.Units)
+	}
+	if len(cr.Reqs) > 800 || nUnits > 5000 {
+		w.skipped["client:too-large"]++
+		return
+	}
 	logs := streamLogs(cr)
-	tracks, obs := coqObs(cr)
+	tracks, obs := coqObs(h, cr)
 	what := fmt.Sprintf("pair %d client %d", p.ID, cr.Attempt)
 	if h.Variant == 1 {
 		sl := logs["main"]
@@ -404,7 +423,7 @@ func emitClientCase(w *shardWriter, res *pairResult, cr *clientRun) {
 			w.skipped["client:nothing-downloaded"]++
 			return
 		}
-		kinds, em, err := tsParse(sl.bodies)
+		kinds, em, err := tsParse(h, sl.bodies)
 		if err != nil {
 			w.skipped["client:ts-parse"]++
 			return
@@ -455,7 +474,7 @@ func emitClientCase(w *shardWriter, res *pairResult, cr *clientRun) {
 			its = append(its, fmt.Sprintf("Build_initTrack %d %d %s", t.ID, t.TimeScale, coqfmt.Bool(t.Codec.IsVideo())))
 			var ti int
 			fmt.Sscanf(strings.TrimLeft(id, "videoaudio"), "%d", &ti)
-			kindOfID[t.ID] = h.Tracks[ti-1].Kind
+			kindOfID[t.ID] = idKindOf(h, h.Tracks[ti-1].Kind)
 			if leadID < 0 {
 				leadID = t.ID
 			}
@@ -551,7 +570,7 @@ func emitNormCases(w *shardWriter, res *pairResult, cr *clientRun) {
 		return
 	}
 	find := func(mux int, kind int, u *cbUnit) *written {
-		id := callbackID(kind, u.Data)
+		id := callbackID(idKindOf(h, kind), u.Data)
 		ws := res.Written[mux]
 		i := sort.Search(len(ws), func(i int) bool { return ws[i].ID >= id })
 		if i < len(ws) && ws[i].ID == id {
